@@ -79,3 +79,5 @@ def run(rep, tier):
     e1run.run(rep, ['Seq', 'Let', 'Ref', 'Str', 'Regex', 'Byte', 'List', 'Sep', 'OperatorTable', 'Choice',
                     'Longest', 'Skip', 'Opt', 'Where', 'Apply', 'Discard', 'Expect', 'ExpectNot'],
               'quick', select=lambda f: f['rule'] == 'G5-local-stores')
+    from .. import controls
+    controls.sharedstate_controls(rep)
